@@ -6,9 +6,11 @@ import GdVerif.Spec.Faults
   The retried unit is the WHOLE exchange: handshake request → challenge reply → data request → all data packets
   (`get_server_packets`).  An attempt can fail at either stage: at the HANDSHAKE (the challenge reply is lost, or the
   handshake request cannot be sent), or at the DATA stage (the server answers the handshake, then the data packets are
-  lost, or the data request cannot be sent) — the two stages `props/families/gs3.py: c10_build` injects.  A plan lists
-  the failed attempts and how the unit ends: with the server's valid exchange, with nothing (the client has given up),
-  or with a malformed datagram at one of the two stages.
+  lost, or the data request cannot be sent) — the two stages `props/families/gs3.py: c10_build` injects.  At the data
+  stage the reply may also STOP HALF WAY: before the server falls silent SOME of the data packets still arrive
+  (`Attempt.got`: any selection of the packets of the reply, each at most once, in any order, at least one missing).  A plan
+  lists the failed attempts and how the unit ends: with the server's valid exchange, with nothing (the client has given
+  up), or with a malformed datagram at one of the two stages (at the data stage possibly after some of the packets).
 -/
 namespace Gd.Gs3.Spec
 open Gd Gd.Gs3 Gd.Faults
@@ -21,6 +23,8 @@ structure Attempt where
   stage : Stage
   /-- `false`: the server falls silent at that stage; `true`: the client's send of that stage fails -/
   sendFault : Bool
+  /-- data packets of the reply that still arrive (data stage) before the silence; `[]`: none -/
+  got : List Bytes
   deriving Repr, DecidableEq
 
 inductive Ending
@@ -28,8 +32,9 @@ inductive Ending
   | valid
   /-- nothing more is scripted: every attempt failed -/
   | gaveUp
-  /-- at that stage the server sends `datagram`, which is not a reply of the expected kind -/
-  | malformed (stage : Stage) (datagram : Bytes)
+  /-- at that stage (at the data stage: after the data packets `got` of the reply) the server sends `datagram`, which is
+  not a reply of the expected kind -/
+  | malformed (stage : Stage) (got : List Bytes) (datagram : Bytes)
   deriving Repr, DecidableEq
 
 structure Plan where
@@ -41,7 +46,7 @@ structure Plan where
 same exchange with another payload: `Spec/Jc2mFaults.lean`); the GameSpy 3 ones take them from the `Config`. -/
 
 def Attempt.deliveriesAt (c : Int) (a : Attempt) : List Delivery :=
-  (match a.stage with | .handshake => [] | .data => [.data (handshakeReply c)]) ++
+  (match a.stage with | .handshake => [] | .data => [.data (handshakeReply c)]) ++ a.got.map .data ++
   (if a.sendFault then [] else [.silence])
 
 /-- the send flags an attempt consumes: the handshake request, and at the data stage the data request -/
@@ -61,20 +66,20 @@ def Attempt.sendsWith (dreq : Bytes) (a : Attempt) : List (Bytes × Bool) :=
 def Ending.deliveriesAt (c : Int) (packets : List Bytes) : Ending → List Delivery
   | .valid => (handshakeReply c :: packets).map .data
   | .gaveUp => []
-  | .malformed .handshake m => [.data m]
-  | .malformed .data m => [.data (handshakeReply c), .data m]
+  | .malformed .handshake got m => got.map .data ++ [.data m]
+  | .malformed .data got m => .data (handshakeReply c) :: got.map .data ++ [.data m]
 
 def Ending.faults : Ending → List Bool
   | .valid => [false, false]
   | .gaveUp => []
-  | .malformed .handshake _ => [false]
-  | .malformed .data _ => [false, false]
+  | .malformed .handshake _ _ => [false]
+  | .malformed .data _ _ => [false, false]
 
 def Ending.sendsWith (dreq : Bytes) : Ending → List (Bytes × Bool)
   | .valid => [(handshakeRequest, false), (dreq, false)]
   | .gaveUp => []
-  | .malformed .handshake _ => [(handshakeRequest, false)]
-  | .malformed .data _ => [(handshakeRequest, false), (dreq, false)]
+  | .malformed .handshake _ _ => [(handshakeRequest, false)]
+  | .malformed .data _ _ => [(handshakeRequest, false), (dreq, false)]
 
 def scriptAt (c : Int) (plan : Plan) (packets : List Bytes) : List Delivery :=
   plan.fails.flatMap (Attempt.deliveriesAt c) ++ plan.ending.deliveriesAt c packets
@@ -111,12 +116,21 @@ def malformedAt (stage : Stage) (m : Bytes) : Bool := m.head? != some stage.kind
 /-- the error it is rejected with -/
 def malformedError (m : Bytes) : ErrKind := if m.isEmpty then .packetUnderflow else .packetBad
 
-/-- C10's domain for a retry count -/
-def wfPlan (retries : Nat) (plan : Plan) : Bool :=
-  match plan.ending with
-  | .valid => plan.fails.length ≤ retries
-  | .gaveUp => plan.fails.length == retries + 1
-  | .malformed stage m => plan.fails.length ≤ retries && malformedAt stage m
+/-- what still arrives of a reply made of the data packets `pool` at a stage: at the data stage, when the data request
+went out, nothing or an incomplete selection of them (`Faults.partOf`); nothing otherwise -/
+def gotAt (pool : List Bytes) (stage : Stage) (sendFault : Bool) (got : List Bytes) : Bool :=
+  if stage == .data && !sendFault then partOf got pool else got.isEmpty
+
+def Attempt.wf (pool : List Bytes) (a : Attempt) : Bool := gotAt pool a.stage a.sendFault a.got
+
+/-- C10's domain for a retry count and a reply made of the data packets `pool` (single-packet mode: one packet, of which
+nothing short of all can arrive) -/
+def wfPlan (retries : Nat) (pool : List Bytes) (plan : Plan) : Bool :=
+  plan.fails.all (Attempt.wf pool) &&
+  (match plan.ending with
+   | .valid => plan.fails.length ≤ retries
+   | .gaveUp => plan.fails.length == retries + 1
+   | .malformed stage got m => plan.fails.length ≤ retries && malformedAt stage m && gotAt pool stage false got)
 
 /-- the outcome C10 prescribes for the packets of the response, `good` being the fault-free ones: those after at most
 `retries` failures, the last failure's error after `retries + 1`, the malformed datagram's error at once -/
@@ -124,7 +138,7 @@ def packetsOutcome (good : List Bytes) (plan : Plan) : Res (List Bytes) :=
   match plan.ending with
   | .valid => .ok good
   | .gaveUp => .err (lastError Attempt.error plan.fails)
-  | .malformed _ m => .err (malformedError m)
+  | .malformed _ _ m => .err (malformedError m)
 
 def faultyPackets (cfg : Config) (st : State) (plan : Plan) : Res (List Bytes) :=
   packetsOutcome (payloads cfg st) plan
@@ -134,7 +148,7 @@ def faultyExpected (st : State) (plan : Plan) : Res Response :=
   match plan.ending with
   | .valid => .ok (expected st)
   | .gaveUp => .err (lastError Attempt.error plan.fails)
-  | .malformed _ m => .err (malformedError m)
+  | .malformed _ _ m => .err (malformedError m)
 
 /-- attempts seen on the wire = handshake requests (every attempt starts with one) -/
 def attemptsOf (sent : List (Bytes × Bool)) : Nat := (sent.filter fun p => p.1 == handshakeRequest).length
